@@ -4,6 +4,7 @@ import json
 import os
 import queue
 import shutil
+import signal
 import subprocess
 import sys
 import tempfile
@@ -170,13 +171,24 @@ def run_true_cli(spec, hashseed='0', timeout=120):
             else:
                 env[k] = v
         t0 = time.monotonic()
+        # the same CPU-time bound as the forked run (CPU time, not wall time: it does not depend on machine load);
+        # interpreter start-up and imports cost the fresh process about half a second more, hence the allowance
+        cpu = int(spec.get('cpu_s', 20)) + 2
+
+        def _limits():
+            import resource
+            resource.setrlimit(resource.RLIMIT_CPU, (cpu, cpu + 5))
         try:
             r = subprocess.run([PY, '-m', 'bespokeasm'] + [a.replace('{SCRATCH}', d) for a in spec['argv']],
                                cwd=os.path.join(d, spec.get('cwd', '.')),
                                env=env, stdin=subprocess.DEVNULL, stdout=subprocess.PIPE, stderr=subprocess.PIPE,
-                               timeout=timeout)
+                               timeout=max(timeout, 6 * cpu), preexec_fn=_limits)
             out['exit'] = r.returncode
             out['timed_out'] = None
+            if r.returncode in (-signal.SIGXCPU, -signal.SIGKILL):
+                out['exit'] = None
+                out['signal'] = -r.returncode
+                out['timed_out'] = 'cpu'
             out['stdout'] = r.stdout.decode('utf-8', 'backslashreplace')[:60000]
             out['stderr'] = r.stderr.decode('utf-8', 'backslashreplace')[:60000]
         except subprocess.TimeoutExpired as e:
